@@ -68,8 +68,8 @@ ASSUMPTIONS = [
     "requested: init and first media segment (live and vod) of every stream's timing-reference file",
     "stream defaults (Stream.defaults JSON) are not part of the modelled state (no reference or constraint depends on "
     "them): setDefaults only answers ok/nf/rej; the generator submits every field of the defaults page with legal "
-    "values of every kind and the oracle then requests manifests and segments. Not generated: the `drm_<system>` "
-    "fields the handler reads but the page does not offer (with a location the POST answers 500 and saves nothing - C16)",
+    "values of every kind (incl. the `drm_<system>` fields the handler reads) and the oracle then requests manifests "
+    "and segments",
     "media-file edits that the application refuses (clock past 2040-02-06, language tags that cannot be packed into "
     "mdhd) are exercised by the channel edit_refused, outside the model: a controlled answer, rows and files unchanged",
     "ownership used by the deletion oracle: Stream owns its media files and the Periods that play it, MediaFile owns "
@@ -101,9 +101,9 @@ DEFAULTS_FORM = {
     "scte35__count": ["0", "3"], "scte35__duration": ["200"], "scte35__interval": ["1000"], "scte35__program_id": ["5"],
     "scte35__start": ["0"], "scte35__timescale": ["100"], "scte35__value": ["x"], "scte35__version": ["0", "1"],
     "scte35__inband": ["0", "1"],
-    # the DRM check boxes under the names the page gives them.  (The handler reads `drm_<system>` instead; with those
-    # names and a location the POST answers 500 - DrmLocation is not JSON serialisable - and saves nothing: a
-    # management-call failure outside C17's clauses, reported to C16 and not generated here.)
+    # the DRM check boxes under the names the page gives them (ignored by the handler) and under the names the
+    # handler reads (`drm_<system>`, with or without a location; saved since /repo fb59b0c)
+    "drm_clearkey": ["on"], "drm_playready": ["on"], "drm_marlin": ["on"],
     "clearkey__enabled": ["on"], "playready__enabled": ["on"], "marlin__enabled": ["on"],
     "clearkey__drmloc": ["pro", "cenc", "moov", "cenc-moov"], "playready__drmloc": ["pro", "cenc", "moov", "pro-cenc"],
     "marlin__drmloc": ["cenc", "moov"], "clearkey__la_url": ["https://lic.example/ck?a=1&b=2"],
